@@ -57,6 +57,7 @@ class AlgebraProfile(StoreProfile):
 
     def params(self, rng, tier):
         p = super().params(rng, tier)
+        p["crowd"] = rng.random() < 0.1
         p["n_entities"] = rng.randint(3, 10 if tier == "quick" else 16)
         p["n_ops"] = rng.randint(6, 14 if tier == "quick" else 36)
         p["junk"] = rng.random() < 0.4
@@ -140,6 +141,19 @@ class AlgebraProfile(StoreProfile):
                 vals = [v for v in (vocab.values(tn, t.keys[j]) or []) if v != segs[j]]
             if not vals:
                 return None
+            frees = [i for i in range(n) if m.vocab(tn, t.keys[i])[0] == "free"]
+            if frees and rng.random() < 0.04:
+                # a very wide list: the search unfolds into dozens of typed searches
+                from .base import CROWD_NAMES
+                j = rng.choice(frees)
+                alts = [segs[j]] + rng.sample(CROWD_NAMES[:100], rng.randint(22, 34))
+                rng.shuffle(alts)
+                h = list(host)
+                h[j] = ",".join(alts)
+                st["s"] = "/".join(h)
+                st["parts"] = ["/".join(h[:j] + [a] + h[j + 1:]) for a in alts]
+                run.probes["wide_comma_lists"] += 1
+                return st
             if partner and partner != segs[j]:
                 run.probes["comma_near_miss_pairs"] += 1
                 alts = [segs[j], partner]
